@@ -39,6 +39,11 @@ func propC02(c *Ctx) {
 	// and a position identifies a body only together with its file
 	c.ruleMemoCoverage("C02-MEMO-KEY-COVERS")
 	c.rulePositionNeedsFile("C02-POSITION-NEEDS-FILE")
+	// explicit '( )' against implicit context: the parenthesis is layout, for the core and for the scanner
+	c.ruleOpenForEveryKind("C02-OPEN-FOR-EVERY-KIND")
+	if m := c.E1Base(); m != nil {
+		c.ruleOpenTransparent(m, "C02-OPEN-TRANSPARENT")
+	}
 }
 
 // ---------- parameter keys ----------
